@@ -61,6 +61,22 @@ UNITS = {
                                        'put_protected', 'peek_{lru,mru}(_mut)_from_{probationary,protected}', 'remove_lru_from_{probationary,protected}',
                                        '{protected,probationary}_{len,cap}', 'clone', 'drop']],
                   assumptions=SHIM_ASSUMPTIONS),
+    'K-2Q': dict(engine='kani', files=['harness_two_queue.rs'], support_files=['gen.rs'],
+                 module={'harness_two_queue.rs': 'lru::two_queue::verif_hooks::harness'},
+                 n=dict(quick=2, thorough=3), bound='size in 1..={N}, quota in 0..=size, ghost bound in 1..=size, each queue <= {N} entries',
+                 timeout=dict(quick=1800, thorough=7200),
+                 functions=[dict(function='TwoQueueCache::' + f, file='src/lru/two_queue.rs', line=0, props=['C01', 'C02', 'C03', 'C05', 'C08', 'C12', 'C13', 'C14'])
+                            for f in ['put', 'get', 'get_mut', 'peek', 'peek_mut', 'contains', 'remove', 'purge', 'len', 'cap', 'is_empty', 'move_to_frequent',
+                                      '{recent,frequent,ghost}_len', '{recent,frequent,ghost}_{iter,iter_lru,iter_mut,iter_lru_mut,keys,keys_lru,values,values_lru,values_mut,values_lru_mut}', 'drop']],
+                 assumptions=SHIM_ASSUMPTIONS),
+    'K-ARC': dict(engine='kani', files=['harness_adaptive.rs'], support_files=['gen.rs'],
+                  module={'harness_adaptive.rs': 'lru::adaptive::verif_hooks::harness'},
+                  n=dict(quick=2, thorough=3), bound='size in 1..={N}, p in 0..=size, each of the four lists <= {N} entries',
+                  timeout=dict(quick=1800, thorough=7200),
+                  functions=[dict(function='AdaptiveCache::' + f, file='src/lru/adaptive.rs', line=0, props=['C01', 'C02', 'C03', 'C05', 'C09', 'C12', 'C13', 'C14'])
+                             for f in ['put', 'replace', 'get', 'get_mut', 'peek', 'peek_mut', 'contains', 'remove', 'purge', 'len', 'cap', 'is_empty', 'move_to_frequent', 'partition',
+                                       '{recent,frequent,recent_evict,frequent_evict}_len', '{recent,frequent,recent_evict,frequent_evict}_{iter,iter_lru,iter_mut,iter_lru_mut,keys,keys_lru,values,values_lru,values_mut,values_lru_mut}', 'drop']],
+                  assumptions=SHIM_ASSUMPTIONS),
     'K-ITER': dict(engine='kani', files=['harness_raw_iter.rs'], support_files=['harness_raw.rs', 'gen.rs'],
                    module={'harness_raw_iter.rs': 'lru::raw::verif_hooks::harness_iter'},
                    n=dict(quick=2, thorough=3), bound='list length <= {N}+1, schedule of next/next_back of length {N}+3 (= len()+2 at full length)',
